@@ -1,10 +1,11 @@
 """C17 - fmtstr accepts any string: never raises, never loses ordinary text."""
 import itertools
 import multiprocessing
+import re
 import wire
 from curtsies.formatstring import FmtStr, fmtstr
 from curtsies import escseqparse
-from props.common import reply_fmt
+from props.common import reply_fmt, canon_cells
 
 PROP = "C17"
 MODULES = ["Curtsies.Properties.C17"]
@@ -285,6 +286,56 @@ def impl_escscan(s):
 # sharded exhaustive enumeration
 # ------------------------------------------------------------------------------------------------
 
+# ------------------------------------------------------------------------------------------------
+# what the ties compare.  C17 speaks about: raising or not, the TEXT of the result, and - through "unformatted" and C05 -
+# the formatting of strings whose SGR sequences are all supported.  Which formatting a hitherto unsupported SGR code
+# produces, whether parse() raises on it, and the token/run structure are representation (a maintainer may change them
+# with the property intact): compared too, but at level="representation".
+# ------------------------------------------------------------------------------------------------
+
+SUPPORTED = frozenset([0, 1, 2, 3, 4, 5, 7] + list(range(30, 38)) + [39] + list(range(40, 48)) + [49])
+_SGR = re.compile("(?:\x1b\\[|\x9b)([0-?]*)([ -/]*)m")
+_PARAMS = re.compile("(?:[0-9]{1,9}(?:;[0-9]{1,9})*)?\\Z")
+
+
+def sgr_supported_only(s):
+    """every complete SGR control sequence occurring in s (7- or 8-bit CSI ... m) has plain decimal parameters that are all
+    supported codes (or no parameter) and no intermediates - the strings on which formatting is inside the properties"""
+    for m in _SGR.finditer(s):
+        if m.group(2) or not _PARAMS.match(m.group(1)):
+            return False
+        if m.group(1) and any(int(x) not in SUPPORTED for x in m.group(1).split(";")):
+            return False
+    return True
+
+
+def canon_text(reply):
+    """'ok <fmt>' -> ('ok', text); a raised exception stays (the kind is irrelevant: the property says 'never')"""
+    if reply.startswith("ok "):
+        return ("ok", "".join(t for t, _ in wire.dec_fmt(reply[3:])))
+    return "raises" if reply.startswith("E:") else reply
+
+
+def tie_fromstr(ctx, name, cases, line_fn, impl_fn):
+    """property level: per-character cells where every SGR sequence is supported, (returns?, text) elsewhere;
+    representation level: the exact run list everywhere"""
+    cases = list(cases)
+    sup = [c for c in cases if sgr_supported_only(c if isinstance(c, str) else c[0])]
+    rest = [c for c in cases if not sgr_supported_only(c if isinstance(c, str) else c[0])]
+    memo = {}
+
+    def impl(c):
+        k = c if isinstance(c, str) else (c[0], tuple(sorted(c[1].items())))
+        if k not in memo:
+            memo[k] = impl_fn(c)
+        return memo[k]
+    if sup:
+        ctx.tie(name, sup, line_fn, impl, canon_cells, canon_cells)
+    if rest:
+        ctx.tie(name + "-text(unsupported-sgr)", rest, line_fn, impl, canon_text, canon_text)
+    ctx.tie(name + "-runs", cases, line_fn, impl, level="representation")
+
+
 def strings_of(alpha, prefix, length):
     for tail in itertools.product(alpha, repeat=length - len(prefix)):
         yield prefix + "".join(tail)
@@ -321,7 +372,7 @@ def run_enumeration(ctx, name, alpha, maxlen, tag):
         for job, (replies, whats) in zip(jobs, pool.imap(_work, jobs, chunksize=4)):
             cases = list(strings_of(*job))
             look = dict(zip(cases, replies))
-            ctx.tie(name, cases, lambda s: "fromstr " + wire.enc_tf(s), look.__getitem__)
+            tie_fromstr(ctx, name, cases, lambda s: "fromstr " + wire.enc_tf(s), look.__getitem__)
             for s in cases:
                 ctx.count(s, nontrivial=nontrivial(s), tag=tag)
             judge(ctx, [(s, w, look[s]) for s, w in zip(cases, whats) if w])
@@ -399,11 +450,41 @@ def d28_shaped(case, what):
     return (has8 and "\x1b[" not in case) or empty
 
 
+def d28_text(s):
+    """Own scanner (no model, no tree under test): the text the recorded defect D28 leaves for a string of the wide numeric
+    grammar when it is PARSED - every numeric CSI sequence removed except the D28-shaped ones: without any "ESC[" the string
+    stays verbatim; of a 7-bit sequence with an empty parameter only the introducer is peeled; an 8-bit one with an empty
+    parameter stays whole.  None if s is not in the grammar."""
+    if numeric_scan(s) is None:
+        return None
+    if "\x1b[" not in s:
+        return s
+    out, i, n = [], 0, len(s)
+    while i < n:
+        if s[i] not in "\x1b\x9b":
+            out.append(s[i]); i += 1
+            continue
+        start = i
+        i += 2 if s[i] == "\x1b" else 1
+        body = i
+        while i < n and ("0" <= s[i] <= "9" or s[i] == ";"):
+            i += 1
+        params = s[body:i]
+        while i < n and 0x20 <= ord(s[i]) <= 0x2f:
+            i += 1
+        i += 1                                             # the final byte (numeric_scan accepted s)
+        if params and "" in params.split(";") and not re.fullmatch("(?:[0-9]+;)*[0-9]+;", params):
+            out.append(s[body:i] if s[start] == "\x1b" else s[start:i])
+    return "".join(out)
+
+
 def judge(ctx, viols):
     """viols: [(string, what, reply of the real code in wire form)].  A failing case is attributed to D28 only if it has the
     D28 shape AND what the real code returned - runs, text and formatting - EQUALS what the recorded defect does, i.e. the
     reply of the Lean model (an independent parser, not the tree under test) for that string.  Anything else on such an
-    input is an unlisted violation."""
+    input is an unlisted violation.  One allowance: when the string also contains an SGR code outside the supported set,
+    whether from_str parses or falls back to remove_ansi (and the formatting) is outside the properties; then the TEXT may
+    also be the one D28 leaves on the parse path (`d28_text`, computed by the harness's own scanner)."""
     cand = [v for v in viols if d28_shaped(v[0], v[1])]
     model = {}
     if cand:
@@ -414,6 +495,8 @@ def judge(ctx, viols):
     for case, what, reply in viols:
         m = model.get(case)
         if m is not None and m.startswith("ok ") and m == reply:
+            ctx.violation(what, case, "D28")
+        elif m is not None and not sgr_supported_only(case) and canon_text(reply) == ("ok", d28_text(case)):
             ctx.violation(what, case, "D28")
         elif m is not None:
             ctx.violation("not-D28: " + what + " [D28-shaped input, but the result is not what D28 explains: got %s, D28 gives %s]" % (reply, m), case, None)
@@ -437,13 +520,14 @@ def small_cases(ctx):
 def check(ctx):
     # 1. samples, numeric grammar, random, strings <= 4: all operations
     cases = small_cases(ctx)
-    ctx.tie("C17/fromstr", cases, lambda s: "fromstr " + wire.enc_tf(s), impl_fromstr)
-    ctx.tie("C17/peel", cases, lambda s: "peel " + wire.enc_tf(s), impl_peel)
-    ctx.tie("C17/parse", cases, lambda s: "parse " + wire.enc_tf(s), impl_parse)
-    ctx.tie("C17/removeansi", cases, lambda s: "removeansi " + wire.enc_tf(s), impl_removeansi)
-    ctx.tie("C17/escscan-spec", cases, lambda s: "escscan " + wire.enc_tf(s), impl_escscan)
+    tie_fromstr(ctx, "C17/fromstr", cases, lambda s: "fromstr " + wire.enc_tf(s), impl_fromstr)
+    # the helpers' exact outputs (token dicts, parse() lists and its raising, remove_ansi) are not what C17 states
+    ctx.tie("C17/peel", cases, lambda s: "peel " + wire.enc_tf(s), impl_peel, level="representation")
+    ctx.tie("C17/parse", cases, lambda s: "parse " + wire.enc_tf(s), impl_parse, level="representation")
+    ctx.tie("C17/removeansi", cases, lambda s: "removeansi " + wire.enc_tf(s), impl_removeansi, level="representation")
+    ctx.tie("C17/escscan-spec", cases, lambda s: "escscan " + wire.enc_tf(s), impl_escscan, impl=False)
     fm = [(s, a) for s in SAMPLES for a in ({}, {"bold": True}, {"fg": 31, "underline": False}, {"bg": 44, "fg": 37, "blink": True})]
-    ctx.tie("C17/fmtstr", fm, lambda c: ("fmtstr %s %s" % (wire.enc_tf(c[0]), wire.enc_atts(c[1]))).rstrip(), impl_fmtstr)
+    tie_fromstr(ctx, "C17/fmtstr", fm, lambda c: ("fmtstr %s %s" % (wire.enc_tf(c[0]), wire.enc_atts(c[1]))).rstrip(), impl_fmtstr)
     n_numeric = 0
     viols = []
     for s in cases:
